@@ -33,7 +33,8 @@ Abs == INSTANCE LabRunAbs WITH
   dig <- st.dig, reads <- st.reads, atrest <- st.atrest, intCount <- st.intCount,
   outKeys <- st.outKeys, outVals <- st.outVals, lateStart <- st.lateStart, idlePolls <- st.idlePolls,
   cachedNow <- st.cachedNow, cacheVals <- st.cacheVals, obsCache <- st.obsCache, envok <- st.envok,
-  marks <- st.marks, emitted <- st.emitted, delivered <- st.delivered, obsLogs <- st.obsLogs
+  marks <- st.marks, emitted <- st.emitted, emitBy <- st.emitBy, delivered <- st.delivered, obsLogs <- st.obsLogs,
+  subSeq <- st.subSeq, names <- st.names, pbar <- st.pbar
 
 Ev == Traces[tr].ev
 TasksOf(c) == 1..c.n
@@ -48,7 +49,9 @@ Init0(c) ==
    held |-> {}, captured |-> {}, dig |-> [t \in TasksOf(c) |-> <<>>], reads |-> {},
    atrest |-> FALSE, intCount |-> 0, outKeys |-> <<>>, outVals |-> <<>>, lateStart |-> FALSE,
    idlePolls |-> 0, cachedNow |-> {}, cacheVals |-> [t \in TasksOf(c) |-> <<>>], obsCache |-> FALSE,
-   envok |-> {}, marks |-> {}, emitted |-> <<>>, delivered |-> <<>>, obsLogs |-> FALSE]
+   envok |-> {}, marks |-> {}, emitted |-> <<>>, emitBy |-> <<>>, delivered |-> <<>>, obsLogs |-> FALSE,
+   subSeq |-> <<>>, names |-> [t \in TasksOf(c) |-> ""],
+   pbar |-> [y \in 0..Len(c.maxpar) |-> [made |-> FALSE, total |-> 0, n |-> 0, closed |-> FALSE]]]
 
 Init == /\ tr \in 1..Len(Traces)
         /\ l = 0
@@ -71,7 +74,8 @@ Apply(e) ==
   LET s == Quiet(st)  k == e.e IN
   CASE k = "submit" ->
          [s EXCEPT !.subCount = [@ EXCEPT ![e.t] = @ + 1],
-                   !.viaCache = IF e.uc = 1 THEN @ \cup {e.t} ELSE @]
+                   !.viaCache = IF e.uc = 1 THEN @ \cup {e.t} ELSE @,
+                   !.subSeq = Append(@, e.t)]
     [] k = "pstart" ->
          [s EXCEPT !.slot = @ \cup {e.t},
                    !.lateStart = @ \/ st.phase # "running"]
@@ -79,7 +83,8 @@ Apply(e) ==
          [s EXCEPT !.inrun = @ \cup {e.t},
                    !.runCount = [@ EXCEPT ![e.t] = @ + 1],
                    !.lateStart = @ \/ st.phase # "running",
-                   !.envok = @ \cup EnvFacts(e)]
+                   !.envok = @ \cup EnvFacts(e),
+                   !.names = IF "pname" \in DOMAIN e /\ @[e.t] = "" THEN [@ EXCEPT ![e.t] = e.pname] ELSE @]
     [] k = "dread" ->
          [s EXCEPT !.reads = @ \cup {[t |-> e.t, d |-> e.d, ok |-> (e.ok = 1), v |-> e.v]}]
     [] k = "rend" ->
@@ -87,7 +92,8 @@ Apply(e) ==
                    !.dig = IF e.ok = 1 THEN [@ EXCEPT ![e.t] = e.v] ELSE @]
     [] k = "load" ->
          [s EXCEPT !.loadCount = [@ EXCEPT ![e.t] = @ + 1],
-                   !.dig = IF e.ok = 1 THEN [@ EXCEPT ![e.t] = e.v] ELSE @]
+                   !.dig = IF e.ok = 1 THEN [@ EXCEPT ![e.t] = e.v] ELSE @,
+                   !.names = IF "pname" \in DOMAIN e /\ @[e.t] = "" THEN [@ EXCEPT ![e.t] = e.pname] ELSE @]
     [] k = "w_die" ->
          [s EXCEPT !.died = @ \cup {e.t}, !.inrun = @ \ {e.t}]
     [] k = "w_term" ->
@@ -132,11 +138,19 @@ Apply(e) ==
          [s EXCEPT !.marks = {[t |-> e.insts[i][1], marked |-> (e.insts[i][2] = 1), anc |-> e.insts[i][3]] :
                                 i \in DOMAIN e.insts}]
     [] k = "obs_ctxstore" ->   \* keys + stored metadata of the same request run under two different contexts
-         [s EXCEPT !.envok = IF e.a # e.b THEN @ \cup {<<0, "context-influenced-cache-keys-or-stored-entries">>} ELSE @]
+         [s EXCEPT !.envok = @ \cup (IF e.a # e.b THEN {<<0, "context-influenced-cache-keys-or-stored-entries">>} ELSE {})
+                                  \cup (IF "leak" \in DOMAIN e /\ e.leak = 1 THEN {<<0, "context-content-found-in-a-stored-entry">>} ELSE {})]
     [] k = "lemit" ->     \* C19 speaks of logger records on every backend, of stdout / stderr lines under a process backend
-         [s EXCEPT !.emitted = IF st.cfg.backend = "serial" /\ e.k \in {"P", "E"} THEN @ ELSE Append(@, e.m)]
+         [s EXCEPT !.emitted = IF st.cfg.backend = "serial" /\ e.k \in {"P", "E"} THEN @ ELSE Append(@, e.m),
+                   !.emitBy = IF st.cfg.backend = "serial" /\ e.k \in {"P", "E"} THEN @ ELSE Append(@, e.t)]
     [] k = "obs_logs" ->
          [s EXCEPT !.obsLogs = TRUE, !.delivered = e.delivered]
+    [] k = "pb_new" ->      \* a second bar for the same type shows as a wrong total
+         [s EXCEPT !.pbar = [@ EXCEPT ![e.y] = [made |-> TRUE, total |-> IF @.made THEN 0 - 1 ELSE e.total, n |-> @.n, closed |-> FALSE]]]
+    [] k = "pb_upd" ->
+         [s EXCEPT !.pbar = [@ EXCEPT ![e.y] = [@ EXCEPT !.n = @ + e.k]]]
+    [] k = "pb_close" ->
+         [s EXCEPT !.pbar = [@ EXCEPT ![e.y] = [@ EXCEPT !.closed = TRUE]]]
     [] OTHER -> s
 
 Next == /\ l < Len(Ev)
@@ -159,7 +173,7 @@ StateNames == {"C01_Returns", "C01_Keys", "C01_Values", "C01_Digest", "C02_RealR
                "C10_Continue", "C10_NoValueForFailed", "C10_CachedOk", "C10_FailFast", "C10_NoStartAfterExit",
                "C11_NoIdleWait", "C11_NoSpin", "C14_ExitClass", "C14_RunningFinish", "C14_RunningCached",
                "C14_CacheConsistent", "C16_Env", "C17_Retained", "C17_Prompt", "C17_Captured",
-               "C17_EmptyAtReturn", "C19_ExactlyOnce"}
+               "C17_EmptyAtReturn", "C19_ExactlyOnce", "C19_DeliveredBeforeRaise", "C19_NeverTwice", "G01_Names", "G02_Bars", "G02_Count", "G02_Closed"}
 StateHolds(c) ==
   CASE c = "C01_Returns" -> Abs!C01_Returns [] c = "C01_Keys" -> Abs!C01_Keys [] c = "C01_Values" -> Abs!C01_Values [] c = "C01_Digest" -> Abs!C01_Digest
     [] c = "C02_RealResult" -> Abs!C02_RealResult
@@ -177,6 +191,9 @@ StateHolds(c) ==
     [] c = "C17_Retained" -> Abs!C17_Retained [] c = "C17_Prompt" -> Abs!C17_Prompt
     [] c = "C17_Captured" -> Abs!C17_Captured [] c = "C17_EmptyAtReturn" -> Abs!C17_EmptyAtReturn
     [] c = "C19_ExactlyOnce" -> Abs!C19_ExactlyOnce
+    [] c = "C19_DeliveredBeforeRaise" -> Abs!C19_DeliveredBeforeRaise [] c = "C19_NeverTwice" -> Abs!C19_NeverTwice
+    [] c = "G01_Names" -> Abs!G01_Names
+    [] c = "G02_Bars" -> Abs!G02_Bars [] c = "G02_Count" -> Abs!G02_Count [] c = "G02_Closed" -> Abs!G02_Closed
 
 StepNames == {"C02_SubmitAfterDeps", "C02_RunAfterDeps", "C02_StartAfterSubmit", "C03_OutcomeStable",
               "C14_NoStartAfterInterrupt", "C17_OnlyNew"}
